@@ -320,7 +320,7 @@ func (e *Engine) scanGlobals() {
 var clauseKeywords = map[string]bool{"func": true, "theorem": true, "global": true, "props": true, "requires": true,
 	"ensures": true, "panics": true, "modifies": true, "decreases": true, "yields": true, "loop": true, "invariant": true,
 	"let": true, "split": true, "mode": true, "established-by": true, "thin": true, "trusted": true, "assert": true,
-	"ensures-notrace": true, "modifies-heap": true, "witness": true}
+	"ensures-notrace": true, "modifies-heap": true, "witness": true, "callback": true}
 
 type rawClause struct {
 	kw   string
@@ -461,6 +461,8 @@ func (e *Engine) loadContracts() error {
 						for _, m := range strings.Fields(strings.ReplaceAll(rc.text, ",", " ")) {
 							cur.Modifies[strings.TrimPrefix(m, "*")] = true
 						}
+					case "callback":
+						cur.Modifies["callback:"+strings.TrimSpace(rc.text)] = true
 					case "witness":
 						cur.Witness = append(cur.Witness, strings.Fields(strings.ReplaceAll(rc.text, ",", " "))...)
 					case "modifies-heap":
